@@ -17,7 +17,7 @@ Three-valued oracle: must-hold / must-raise / unconstrained.  Unconstrained (rec
 syntax errors that are none of the statement's malformed classes (missing comma / bracket / arrow, duplicated arrow,
 empty axis list), a repeated index inside one array, the exception *type* of a rejection, and whether unusual white
 space (before ``[``, a newline inside brackets) is accepted at all — but *if* such a string is accepted it has to
-denote what is written.
+denote what is written (for the syntax mutations: printing the accepted spec gives the string back, up to white space).
 """
 from __future__ import annotations
 
@@ -402,6 +402,14 @@ def mutations(spec, only_names=False):
     return res
 
 
+def _lenient_model(text):
+    """defect model of the recorded finding 'from_string is a lenient re.findall': exactly one arrow and both sides still show
+    both kinds of bracket (or are '...'), so the up-front guards pass and the regex silently skips the fragment it cannot
+    match. An accepted misparse that this model does NOT explain is a different defect."""
+    sides = text.split("->")
+    return len(sides) == 2 and all(sd.strip() == "..." or ("[" in sd and "]" in sd) for sd in sides)
+
+
 def syntax_mutations(spec):
     """strings outside the statement's malformed classes: executed, outcome recorded, never flagged"""
     c = render(spec)
@@ -650,6 +658,15 @@ def run_case(case):  # noqa: C901, PLR0911, PLR0912
     spec = case.get("spec")
     if op == "print-parse":
         return check_print_parse(spec)[0]
+    if op == "syntax-mutation":
+        try:
+            got = MapSpec.from_string(case["text"])
+        except Exception:  # noqa: BLE001
+            return []
+        if "".join(str(got).split()) != "".join(case["text"].split()):
+            return [({"kind": "misparse", "check": "syntax-mutation", "mop": case["mop"], "lenient_regex_model": _lenient_model(case["text"])},
+                     f"{case['text']!r} accepted as {got!s}")]
+        return []
     if op == "malformed":
         r = check_malformed(case["mutant"], case["via"], case["mop"], case.get("extras", {}))
         return [(r[1], r[2])] if r and r[0] == "accepted" else []
@@ -848,10 +865,17 @@ def run_unit(unit):  # noqa: C901, PLR0912, PLR0915
                             for mop, text in syntax_mutations(spec):
                                 acc.stratum("unconstrained:" + mop)
                                 try:
-                                    MapSpec.from_string(text)
-                                    acc.outcome(f"unconstrained:{mop}:accepted")
+                                    got = MapSpec.from_string(text)
                                 except Exception as e:  # noqa: BLE001
                                     acc.outcome(f"unconstrained:{mop}:rejected:{type(e).__name__}")
+                                    continue
+                                acc.outcome(f"unconstrained:{mop}:accepted")
+                                # whether such a string is accepted is not constrained - but an ACCEPTED string has to denote
+                                # what is written: printing the result gives the string back (up to white space)
+                                if "".join(str(got).split()) != "".join(text.split()):
+                                    acc.violation({"kind": "misparse", "check": "syntax-mutation", "mop": mop, "lenient_regex_model": _lenient_model(text)},
+                                                  {"op": "syntax-mutation", "text": text, "mop": mop},
+                                                  f"{text!r} ({mop}) was accepted as {got!s}: not what is written")
             elif stage == "shape":
                 for n_out in (1, 2):
                     _shape_sweep(acc, make_spec(ins, oax, n_out, 0), _sweep_sizes(tier, S, n_out, total_rank, len(ins)))
